@@ -262,6 +262,9 @@ def correspondence(chk, quick):
             chk.count("array:%s:%s" % (kind, norm))
             chk.case(("corr", kind, arg, N, norm, rot), sample=None)
         cs = [common.dyadic(rng, -3, 3, bits=4) for _ in range(rng.randint(1, 8))]
+        if rng.random() < 0.4:            # leading / interior / trailing zeros
+            cs = [0.0 if rng.random() < 0.5 else c for c in cs]
+            cs[0] = 0.0
         e = Z.phaseFromZernikes(list(cs), N, norm=norm, rot=rot)
 
         def f(ans, cs=cs, N=N, norm=norm, rot=rot, e=e):
@@ -531,6 +534,18 @@ def oracle(chk, quick):
         # phase = linear combination; coefficient vector untouched; additive and homogeneous
         cs = numpy.array([rng.uniform(-2, 2) for _ in range(J)])
         cs2 = numpy.array([rng.uniform(-2, 2) for _ in range(J)])
+        # sparse coefficient vectors (piston/tip/tilt removed, a single mode, trailing zeros, all zero): each coefficient must stay
+        # with its own Noll index whatever the zeros around it
+        pat = rng.randrange(8)
+        if pat == 0:
+            cs[:rng.randint(1, J)] = 0.0
+        elif pat == 1:
+            cs[rng.randint(0, J - 1):] = 0.0
+        elif pat == 2:
+            k = rng.randrange(J); v = cs[k]; cs[:] = 0.0; cs[k] = v
+        elif pat == 3:
+            cs[[i for i in range(J) if rng.random() < 0.5]] = 0.0
+        chk.count("oracle:phase-coefficients:%s" % ["leading-zeros", "trailing-zeros", "single-mode", "random-zeros", "dense", "dense", "dense", "dense"][pat])
         al = rng.uniform(-3, 3)
         keep = cs.copy()
         with numpy.errstate(all="ignore"):
